@@ -512,7 +512,17 @@ def step(run, op):
         elif op == 'dict_roundtrip':
             k = pick_obj(run)
             obj, sh = run.pool[k]
-            new = rdms_from_dict(copy.deepcopy(obj.to_dict()))
+            if rng.integers(2):
+                # straight from the dict form / from the exposed vectors (no defensive copy by the caller): the new
+                # object may share its buffer with the source, in-place operations must still not interfere
+                new = rdms_from_dict(obj.to_dict()) if rng.integers(2) else \
+                    RDMs(obj.get_vectors(), dissimilarity_measure=obj.dissimilarity_measure,
+                         descriptors=copy.deepcopy(obj.descriptors), rdm_descriptors=copy.deepcopy(obj.rdm_descriptors),
+                         pattern_descriptors=copy.deepcopy(obj.pattern_descriptors))
+                sig['arg'] = 'shared'
+            else:
+                new = rdms_from_dict(copy.deepcopy(obj.to_dict()))
+                sig['arg'] = 'deepcopy'
             run.add(new, sh.copy())
             touched = (len(run.pool) - 1,)
         elif op == 'to_df':
